@@ -188,7 +188,17 @@ func (aux *Aux) buildCacheMeth(args slip.List) *slip.Method {
 	var meth slip.Method
 	key := make([]string, aux.reqCnt)
 	aux.collectMethods(&meth, key, 0, args)
-	if len(meth.Combinations) == 0 {
+	// The :before and :after methods do not form an effective method on their
+	// own. Without an applicable primary (or an :around that decides whether
+	// to continue) there is no applicable method.
+	var callable bool
+	for _, c := range meth.Combinations {
+		if c.Primary != nil || c.Wrap != nil {
+			callable = true
+			break
+		}
+	}
+	if !callable {
 		return nil
 	}
 	meth.Name = aux.docs.Name
